@@ -4,7 +4,7 @@ from __future__ import annotations
 import z3
 
 from .loader import Unsupported
-from .values import (V, VBool, VBytes, VDict, VEnum, VExc, VInt, VList, VNone, VNoneT, VObj, VOpaque, VOpt, VReal,
+from .values import (Opaque, V, VBool, VBytes, VDict, VEnum, VExc, VInt, VList, VNone, VNoneT, VObj, VOpaque, VOpt, VReal,
                      VSeq, VStr, VTuple, VClass, VFunc, VMap, VSet, term_of)
 
 
@@ -179,10 +179,17 @@ class Ops:
             return self.st.heap[(a.ref, "seq")] == self.st.heap[(b.ref, "seq")]
         if isinstance(a, VSet) and isinstance(b, VSet):
             return self.st.heap[(a.ref, "set")] == self.st.heap[(b.ref, "set")]
+        if isinstance(a, VMap) and isinstance(b, VMap):
+            return z3.And(self.st.heap[(a.ref, "dom")] == self.st.heap[(b.ref, "dom")],
+                          self.st.heap[(a.ref, "val")] == self.st.heap[(b.ref, "val")])
         if isinstance(a, VClass) and isinstance(b, VClass):
             return a.name == b.name
         if isinstance(a, VFunc) and isinstance(b, VFunc):
-            return a is b
+            return self.func_eq(a, b)
+        if isinstance(a, VFunc) != isinstance(b, VFunc) and (isinstance(a, VOpaque) or isinstance(b, VOpaque)):
+            # a concrete function object against an opaque callable: equal only if it is that object's token
+            f, o = (a, b) if isinstance(a, VFunc) else (b, a)
+            return self.func_token(f) == o.term
         # values of different kinds are unequal
         if isinstance(a, VOpaque) or isinstance(b, VOpaque):
             raise Unsupported(f"comparison of opaque with {a!r} / {b!r}")
@@ -208,6 +215,25 @@ class Ops:
         if a.cls == b.cls and self.is_value_class(a.cls):
             return _and([self.eq(self.get_field(a, f), self.get_field(b, f)) for f in self.tenv.fields_of(a.cls)])
         return False
+
+    def func_eq(self, a, b):
+        from .values import VMethod
+        if a is b:
+            return True
+        if isinstance(a, VMethod) and isinstance(b, VMethod):
+            if a.name != b.name:
+                return False
+            if a.obj is None or b.obj is None:
+                return a.obj is None and b.obj is None and a.cls == b.cls
+            return self.identical(a.obj, b.obj)
+        return False
+
+    def func_token(self, f):
+        """an Opaque constant standing for a concrete function object (bound methods: per object and name)"""
+        from .values import VMethod
+        if isinstance(f, VMethod) and isinstance(f.obj, VObj) and not f.obj.symbolic:
+            return z3.Const(f"fn:{f.obj.cls}#{f.obj.ref}.{f.name}", Opaque)
+        return z3.Const(f"fn:{id(f)}", Opaque)
 
     def is_value_class(self, cls: str) -> bool:
         ci = self.repo.cls(cls)
